@@ -3,14 +3,14 @@
 package main
 
 import (
-	"regexp"
-	"strconv"
 	"encoding/json"
 	"flag"
 	"fmt"
 	"os"
 	"os/exec"
 	"path/filepath"
+	"regexp"
+	"strconv"
 	"strings"
 	"sync"
 
@@ -162,6 +162,14 @@ func main() {
 		run.Assumptions = append(run.Assumptions, "end-to-end part: fakemilvus is the downstream; a drop re-issued after a KILL is tolerated (counted), quiescence = sentinel rows accepted on every live stream by the current incarnation")
 	}
 	vf.CollectRaces(run)
+	if p := os.Getenv("C13D_DUMP"); p != "" && *fProp == "C13D" {
+		// the manager half of C13's duplicate-notification clause is merged into the catalog rig's run
+		if err := run.Dump(p); err != nil {
+			fmt.Fprintln(os.Stderr, "C13D_DUMP:", err)
+			os.Exit(70)
+		}
+		os.Exit(0)
+	}
 	if p := os.Getenv("C16M_DUMP"); p != "" && *fProp == "C16M" {
 		// the manager part of C16 is merged into the unit rig's run (one evidence file for C16)
 		if err := run.Dump(p); err != nil {
@@ -250,6 +258,96 @@ func init() {
 			run.Floor("cases_with_forwarded_packs", 1)
 			run.Floor("filtered_junk_messages", 1)
 		}}
+	props["C13D"] = &propDef{level: "exploration", workers: 6, conc: 6,
+		rule: "manager half of C13's clause 'being notified twice about the same object has no further effect': the dml catalogs and scripts (equal channel counts, no re-created partitions) with duplicated notifications: about half of the StartReadCollection / AddPartition calls are made TWICE AT THE SAME TIME (two goroutines behind a start barrier: list path and watch path, or two puts of one object in quick succession), and the anchor collection and its partitions are announced again while data flows; every lookup of the downstream catalog takes a seeded 0-1.5 ms (the window between the 'already replicated?' test and the registration). Judged: of two simultaneous calls at least one succeeds, no source vchannel is registered with the dispatcher a second time, and the replicated stream is still complete, duplicate-free and ordered (the C01 oracle); the error with which the manager answers a start for a collection it already replicates is counted (the catalog rig mirrors it and judges the reader). Non-trivial = a case with at least one simultaneous pair; distinct by (collections, twins, interleaving).",
+		assume: []string{
+			"the fake dispatcher refuses a second registration of a live vchannel like Milvus' client does, so a second start shows as an error / a second register event rather than as duplicated rows",
+		},
+		nCases: func(r *vf.Run) int { return r.Pick(72, 1800) },
+		gen: func(seed int64, idx int) *Case {
+			o := dmlOpts
+			o.packsMin, o.packsMax = 6, 12
+			c := genCase(seed, idx, o)
+			rnd := newRand(seed, "c13d", idx)
+			c.TargetDelayUs = 1500
+			twins := 0
+			for i := range c.Steps {
+				if (c.Steps[i].Kind == sStartColl || c.Steps[i].Kind == sAddPart) && rnd.Intn(2) == 0 {
+					c.Steps[i].Twin = true
+					twins++
+				}
+			}
+			if twins == 0 && len(c.Steps) > 0 {
+				c.Steps[0].Twin = true
+			}
+			// the anchor collection (started first, one shard on every source channel) is announced again while data flows
+			anchorP := c.Colls[0].Shards[0].SrcP
+			at := 2 + rnd.Intn(3)
+			c.Steps = append(c.Steps, Step{Kind: sStartColl, Coll: 0, Async: true, Dup: true, After: []Dep{packDep(anchorP, at, 0)}})
+			for pi := range c.Colls[0].Parts {
+				if rnd.Intn(2) == 0 {
+					c.Steps = append(c.Steps, Step{Kind: sAddPart, Coll: 0, Part: pi, Async: true, Dup: true, Twin: rnd.Intn(2) == 0, After: []Dep{packDep(anchorP, at+1, 0)}})
+				}
+			}
+			c.Note += fmt.Sprintf(" + %d simultaneous pairs, anchor announced again after pack %d", twins, at)
+			return c
+		},
+		check: func(run *vf.Run, res *caseResult) {
+			rt := res.rt
+			twins, dups := 0, 0
+			// The manager answers a start for a collection it already replicates with an error (after its retries): that
+			// is its documented way of saying "already there" and is COUNTED here (the catalog rig's recording manager
+			// mirrors it; the reader must not hand it a collection twice). What is judged: of two simultaneous calls at
+			// least one succeeds, nothing is registered twice, the replicated stream is unchanged.
+			twinErr := map[int]int{}
+			for _, e := range rt.evCopy() {
+				switch e.Kind {
+				case "twin-ret":
+					twins++
+					if e.Err != "" {
+						twinErr[e.Step]++
+						if strings.Contains(e.Err, "has been replicated") {
+							run.Count("duplicate_start_answered_with_error", 1)
+						} else {
+							run.Violate("C13/simultaneous-notifications-of-one-object-failed", fmt.Sprintf("%s for collection %d part %d arrived twice at the same time, one of the two calls returned: %s", e.Note, e.Coll, e.Part, e.Err), replayOf(res, nil))
+						}
+					}
+				case "step-ret":
+					if e.Step < len(rt.c.Steps) && rt.c.Steps[e.Step].Dup && !rt.c.Steps[e.Step].Twin {
+						dups++
+						if strings.Contains(e.Err, "has been replicated") {
+							run.Count("duplicate_start_answered_with_error", 1)
+						} else if e.Err != "" {
+							run.Violate("C13/repeated-notification-failed", fmt.Sprintf("%s for collection %d part %d announced again: %s", e.Note, e.Coll, e.Part, e.Err), replayOf(res, nil))
+						}
+					}
+				case "register":
+					if e.N > 1 {
+						run.Violate("C13/notified-twice-stream-registered-again", fmt.Sprintf("source vchannel %s was registered with the dispatcher %d times", e.V, e.N), replayOf(res, nil))
+					}
+				}
+			}
+			for step, n := range twinErr {
+				if n >= 2 && !rt.c.Steps[step].Dup {
+					run.Violate("C13/simultaneous-notifications-of-one-object-both-failed", fmt.Sprintf("%s for collection %d part %d arrived twice at the same time and BOTH calls failed: the object is not replicated at all", rt.c.Steps[step].Kind, rt.c.Steps[step].Coll, rt.c.Steps[step].Part), replayOf(res, nil))
+				}
+			}
+			for _, v := range checkC01(rt, run) {
+				run.Violate("C13/notified-twice-replicated-stream-changed", fmt.Sprintf("[%s] %s", v.key, v.desc), replayOf(res, nil))
+			}
+			run.Count("cases_quiescent", 1)
+			run.Count("simultaneous_calls", twins)
+			run.Count("repeated_calls", dups)
+			run.Distinct("interleavings", sigOfCase(rt))
+			if twins > 0 {
+				run.Nontrivial(fmt.Sprintf("%d/%d/%s", len(rt.c.Colls), twins, sigOfCase(rt)))
+			}
+		},
+		floors: func(run *vf.Run) {
+			run.Floor("cases_quiescent", run.Pick(24, 600))
+			run.Floor("simultaneous_calls", run.Pick(120, 3000))
+			run.Floor("repeated_calls", run.Pick(24, 600))
+		}}
 	props["C02"] = &propDef{level: "exploration", rule: dmlRule, assume: dmlAssume, workers: 6, conc: 6,
 		nCases: func(r *vf.Run) int { return r.Pick(300, 6000) },
 		gen: func(seed int64, idx int) *Case {
@@ -329,9 +427,9 @@ func placementConflict(c *Case) bool {
 // channel (wrong output channel, positions naming the other channel). Anything else in such a case - a lost or
 // duplicated message, a wrong label, a changed payload - is NOT covered by the finding.
 var conflictingPairingKeys = map[string]bool{
-	"packs-of-one-stream-out-of-read-order":  true,
-	"delivered-on-wrong-output-channel":      true,
-	"message-position-names-other-channel":   true,
+	"packs-of-one-stream-out-of-read-order": true,
+	"delivered-on-wrong-output-channel":     true,
+	"message-position-names-other-channel":  true,
 }
 
 // pairingConflict re-keys a violation observed in a case with a conflicting channel pairing under unequal channel
